@@ -80,6 +80,7 @@ func init() {
 		return nil
 	})
 	registerIntrinsic(rtPkg+"Reach", func(i *interpreter, fr *frame, fn *ssa.Function, a []value) value {
+		i.ctx.noEffect("verifrt.Reach")
 		i.ctx.reach[a[0].(string)] = true
 		return nil
 	})
@@ -92,6 +93,7 @@ func init() {
 		return nil
 	})
 	registerIntrinsic(rtPkg+"KnownFinding", func(i *interpreter, fr *frame, fn *ssa.Function, a []value) value {
+		i.ctx.noEffect("verifrt.KnownFinding")
 		id := a[0].(string)
 		t := boolTerm(a[1])
 		if old, ok := i.ctx.sigs[id]; ok {
@@ -406,6 +408,7 @@ func (c *pathCtx) formatInt(i *interpreter, n symInt) value {
 	if k < len(c.atomOrd) {
 		return c.atomOrd[k]
 	}
+	c.noEffect("fresh formatted integer")
 	c.fresh++
 	name := fmt.Sprintf("vfmt%d", c.fresh)
 	c.atoms[name] = &atomInfo{idx: -c.fresh, ok: trueT, val: n.t, canon: trueT}
@@ -416,6 +419,7 @@ func (c *pathCtx) formatInt(i *interpreter, n symInt) value {
 // observe records a scalar for translation validation. Symbolic values are
 // bound to a fresh constant whose model value is read back with the sample.
 func (c *pathCtx) observe(label string, v value) {
+	c.noEffect("verifrt.Observe")
 	o := obsRaw{label: label}
 	switch x := v.(type) {
 	case symBool:
